@@ -984,6 +984,9 @@ func (ix *idxProver) le(v ssa.Value, c int, B bterm, at *ssa.BasicBlock, seen ma
 	if B.val != nil && v == B.val && c <= 0 {
 		return true
 	}
+	if ix.leByAffixFact(v, c, B, at, seen) {
+		return true
+	}
 	switch x := v.(type) {
 	case *ssa.Const:
 		n, ok := constInt(x)
@@ -1087,6 +1090,51 @@ func (ix *idxProver) le(v ssa.Value, c int, B bterm, at *ssa.BasicBlock, seen ma
 				return true
 			}
 			return false
+		}
+	}
+	return false
+}
+
+// leByAffixFact: where strings.HasPrefix / HasSuffix (X[lo:hi], k) is known
+// true for a constant k, the tested slice has at least len(k) bytes:
+// lo + len(k) ≤ hi (≤ len(X) without a high bound). With lo = v + d this gives
+// v + c ≤ hi for every c ≤ d + len(k).
+func (ix *idxProver) leByAffixFact(v ssa.Value, c int, B bterm, at *ssa.BasicBlock, seen map[string]bool) bool {
+	if _, isC := v.(*ssa.Const); isC {
+		return false
+	}
+	for _, ci := range callsIn(ix.fn) {
+		h, ok := ci.(*ssa.Call)
+		if !ok || !(isFunc(calleeObj(h), "strings", "HasPrefix") || isFunc(calleeObj(h), "strings", "HasSuffix")) {
+			continue
+		}
+		k, isC := constString(h.Call.Args[1])
+		if !isC || len(k) == 0 {
+			continue
+		}
+		ss, ok := canon(h.Call.Args[0]).(*ssa.Slice)
+		if !ok || ss.Low == nil {
+			continue
+		}
+		d, okd := 0, ss.Low == v
+		if bo, isB := ss.Low.(*ssa.BinOp); isB && !okd && bo.Op == token.ADD {
+			if n, isN := constInt(bo.Y); isN && bo.X == v {
+				d, okd = int(n), true
+			} else if n, isN := constInt(bo.X); isN && bo.Y == v {
+				d, okd = int(n), true
+			}
+		}
+		if !okd || c > d+len(k) || !ix.flagTrueAt(h, at) {
+			continue
+		}
+		if ss.High != nil {
+			if ix.le(ss.High, 0, B, at, seen) {
+				return true
+			}
+			continue
+		}
+		if ix.lenLe(ss.X, B) {
+			return true
 		}
 	}
 	return false
